@@ -1,6 +1,8 @@
 package props
 
 import (
+	"fmt"
+	"go/token"
 	"godcheck/core"
 
 	"golang.org/x/tools/go/ssa"
@@ -11,6 +13,46 @@ func c13Extra(r *core.Run, pkg string) {
 	p := r.P
 	isAWR := core.CallMethod("hash.ConsistentHash", "AddWithReplicas")
 	isRemove := core.CallMethod("hash.ConsistentHash", "Remove")
+	r.Check("D2/K2/replicas-at-least-weight-divisor", "ConsistentHash.replicas is never below the divisor of the weight formula (replicas·weight/100): every value stored to the field is a constant >= 100, or a caller-supplied number on a path on which it was tested to be >= 100 (with fewer replicas a node of small positive weight gets 0 virtual nodes: it receives no keys, and Get reports absence although a node of positive weight is present)", func(o *core.O) {
+		const divisor = 100
+		n := 0
+		for _, f := range p.PkgFuncs(pkg) {
+			for _, st := range core.StoresToField(f, "ConsistentHash.replicas") {
+				n++
+				r.Fn(core.FuncName(f))
+				var bad []string
+				gxLeavesWithEdges(st.Val, func(leaf ssa.Value, edge *core.Edge) {
+					leaf = core.Forward(leaf)
+					if k, ok := core.ConstInt(leaf); ok {
+						if k < divisor {
+							bad = append(bad, fmt.Sprintf("the constant %d", k))
+						}
+						return
+					}
+					same := func(v ssa.Value) bool { return core.Forward(v) == leaf }
+					atom := core.AnyOf(core.Cmp(token.GEQ, same, core.IsConstInt(divisor)), core.Cmp(token.GTR, same, core.IsConstInt(divisor-1)))
+					holds, _ := core.EdgesOf(f, atom)
+					if edge != nil {
+						if gxEdgeReachable(f, *edge, holds) {
+							bad = append(bad, core.Describe(leaf)+" without a test that it is >= 100")
+						}
+						return
+					}
+					if w := core.Requires(f, core.Is(st), atom); w != nil {
+						bad = append(bad, core.Describe(leaf)+" without a test that it is >= 100")
+					}
+				})
+				for _, b := range bad {
+					o.Fail(p.InstrPos(st), "%s stores %s to ConsistentHash.replicas: replicas·weight/100 is then 0 for small positive weights", core.FuncName(f), b)
+				}
+			}
+		}
+		o.Site(n, pkg+": stores to ConsistentHash.replicas")
+		if n == 0 {
+			o.Unres("no store to ConsistentHash.replicas found")
+		}
+	})
+
 	r.Check("D2/K1/add-wrappers-always-replace", "Add and AddWithWeight replace the node's previous virtual nodes for every argument: every path runs AddWithReplicas (which removes first) or Remove for the given node", func(o *core.O) {
 		n := 0
 		for _, nm := range []string{"Add", "AddWithWeight"} {
